@@ -22,6 +22,18 @@ if __name__ == "__main__":
         from dsim.anchor import run_real
 
         rc = run_real(sys.argv[2])
+    elif len(sys.argv) >= 4 and sys.argv[1] == "--anchor-batch":
+        import json as _json
+
+        from dsim import boot as _boot
+
+        if _boot.pin_env():
+            os.execve(sys.executable, [sys.executable] + sys.argv, os.environ)
+        from dsim.anchor import run_real_only
+
+        names = _json.loads(sys.argv[3])
+        print("ANCHOR-BATCH " + _json.dumps(run_real_only(sys.argv[2], names)))
+        rc = 0
     else:
         from dsim.cli import main
 
